@@ -281,3 +281,16 @@ func checkModeOptions(r *Report, rule string, mc *modeConfig, want map[string]in
 		r.ob(rule, name+":constant-options", mc.fn, mc.call, "all options are compile-time constants").fail("non-constant options: " + fmt.Sprint(mc.unknown))
 	}
 }
+
+// checkDecoderLimits: R07.3 - the decode modes keep the library's limits.
+func checkDecoderLimits(r *Report, rule string) {
+	n := 0
+	for _, mc := range r.P.modeConfigs() {
+		if mc.enc {
+			continue
+		}
+		n++
+		checkModeOptions(r, rule, mc, nil, []string{"MaxNestedLevels", "MaxArrayElements", "MaxMapPairs"})
+	}
+	r.floor(rule, n, 2, "decode mode constructions")
+}
